@@ -346,9 +346,9 @@ func c13State(w *harness.World, ctx sdk.Context, aux interface{}) []*explore.Vio
 
 func runC13(rc *RunCtx) {
 	scn := &Scenario{Name: "c13", Genesis: harness.BuildGenesis(c13Genesis()), T0: harness.T0, Events: c13Events(), StepOracle: c13Step, StateOracle: c13State, BlockPanicProperty: ""}
-	depth, budget, maxTraces := 4, 100*time.Second, 1500
+	depth, budget, maxTraces := 5, 100*time.Second, 1500
 	if rc.Thorough() {
-		depth, budget, maxTraces = 5, 25*time.Minute, 20000
+		depth, budget, maxTraces = 6, 25*time.Minute, 20000
 	}
 	runScenarioCheck(rc, scn, depth, budget, maxTraces, "")
 	agree, total := govPathAgreement(rc, scn.Genesis, c13Payloads())
